@@ -280,8 +280,11 @@ def w_gate(_):
         s = judge("complete", (reg, msg))
         if s:
             acc.bad(s, {"kind": "complete", "p": [reg, msg]})
-    for alt in (0, 5000, 20000, 35000, 41000):
-        ac13 = AL.q1_encode((alt + 1000) // 25)
+    # 51000 / 66000 / 70000 ft are only expressible in the 100-ft Gillham code (the 25-ft code ends at 50175 ft); the
+    # last two lie above 20 km, where the atmosphere model is still isothermal (the real ISA warms by 1 K/km there:
+    # less than 1 kt of IAS at these Mach numbers, far inside the gate margins used here)
+    for alt in (0, 5000, 20000, 35000, 41000, 51000, 66000, 70000):
+        ac13 = AL.q1_encode((alt + 1000) // 25) if alt <= 50175 else AL.gillham_encode(alt)
         for mraw in range(40, 251, 15):
             mach = mraw * 2.048 / 512
             ias0 = I.mach2cas(mach, alt * I.FT) / I.KTS
